@@ -1,29 +1,42 @@
 (* C01 - OSC 1.0 wire format: encoding is spec-exact, decoding is lossless.
    Only the property theorems, each closed by [exact]. Model: Osc/OscModel.v
    (enc_spec is the OSC 1.0 text; size_null / amessage / the readers follow
-   src/rtosc.c).  For all addresses, type-tag strings and argument lists. *)
+   src/rtosc.c).  For all addresses, type-tag strings and argument lists.
+
+   Which constructors: the theorems here are about the measuring pass and
+   rtosc_amessage (argument array).  rtosc_avmessage (argument-value list) is
+   proved in C16 (C16_iterate_message: its message is enc_spec of the expanded
+   values, through this codec).  rtosc_vmessage / rtosc_message (varargs) turn
+   their va_list into an argument array and call rtosc_amessage; that unpacking
+   (default argument promotions) is not modelled: it is tied to these theorems
+   only by the correspondence run, which calls it through a hand-built va_list
+   and demands the same bytes (streams msg and cap).
+   [code_range]: total size < 2^32 and blob lengths < 2^31 - the region in
+   which the unbounded-Z model of the encoder is the code's unsigned/int32
+   arithmetic. *)
 From Coq Require Import List ZArith.
-From RtoscV Require Import Osc.OscModel Osc.OscEncProofs Osc.OscReadProofs Osc.OscLenProofs Osc.OscRegress.
+From RtoscV Require Import Osc.OscModel Osc.OscEncProofs Osc.OscReadProofs Osc.OscLenProofs Osc.OscContentProofs Osc.OscRegress.
 Import ListNotations.
 Local Open Scope Z_scope.
 
 (* the measuring pass (vsosc_null, also the NULL-buffer probe) returns the
    length of the OSC 1.0 encoding *)
 Theorem C01_size_is_spec : forall a tags args,
-  args_wf tags args -> size_null a tags args = Ok (zlen (enc_spec a tags args)).
-Proof. exact size_null_spec. Qed.
+  args_wf tags args -> code_range a tags args ->
+  size_null a tags args = Ok (zlen (enc_spec a tags args)).
+Proof. exact size_null_spec_r. Qed.
 
 (* rtosc_amessage writes exactly the OSC 1.0 encoding and returns its length
    (here: into a buffer that is large enough; every capacity is C02) *)
 Theorem C01_bytes_are_spec : forall a tags args,
-  args_wf tags args ->
+  args_wf tags args -> code_range a tags args ->
   let enc := enc_spec a tags args in
   amessage None a tags args = Ok (zlen enc, None) /\
   forall buf,
     amessage (Some buf) a tags args =
     if zlen buf <? zlen enc then Ok (0, Some (zeros (zlen buf)))
     else Ok (zlen enc, Some (enc ++ skipn (length enc) buf)).
-Proof. exact amessage_spec. Qed.
+Proof. exact amessage_spec_r. Qed.
 
 (* the length function reports that same length for those bytes, whatever
    follows them in memory and whatever bound >= the length is passed *)
@@ -65,6 +78,15 @@ Theorem C01_decode_by_index : forall a tags args rest idx,
               argument (enc_spec a tags args ++ rest) idx = Ok v.
 Proof. exact argument_enc. Qed.
 
+(* ... and those offsets designate the original bytes: at a string's offset the
+   message holds exactly its characters up to the terminator, at a blob's
+   offset exactly its len bytes ([content_ok] walks tags, arguments and
+   offsets exactly as [dec_spec] does) *)
+Theorem C01_content : forall a tags args rest,
+  msg_wf a tags args ->
+  content_ok (enc_spec a tags args ++ rest) tags args (args_off a tags).
+Proof. exact content_enc. Qed.
+
 (* the argument string accessor points at the type tags *)
 Theorem C01_argument_string : forall a tags args rest,
   msg_wf a tags args ->
@@ -88,3 +110,8 @@ Theorem C01_nonvacuous :
          [PStr [104; 101; 108; 108; 111]; P4 4294967295; PBlob 3 (Some [1; 2; 3])]
   /\ not_bundle_addr [47; 97; 98].
 Proof. exact example_msg_wf. Qed.
+
+Theorem C01_code_range_nonvacuous :
+  code_range [47; 97; 98] [115; 91; 105; 98; 93; 84]
+             [PStr [104; 101; 108; 108; 111]; P4 4294967295; PBlob 3 (Some [1; 2; 3])].
+Proof. exact example_code_range. Qed.
